@@ -57,6 +57,8 @@ def atoms(P, reduced=False):
         return ['int', 'unsigned char', c, '%s::%s::%s' % (P['ns'][2], P['ns'][3], c), P['kw'][1]]
     out = ['int', 'double', 'bool', 'size_t', 'char', 'float', 'unsigned char']
     out += [c, '%s::%s' % (P['ns'][0], c), '%s::%s::%s' % (P['ns'][2], P['ns'][3], P['cls'][1])]
+    # custom types whose last component is spelled like a fundamental type
+    out += ['std::size_t', 'fixed::int', '%s::double' % P['ns'][0]]
     out += P['kw']
     return out
 
@@ -158,6 +160,9 @@ def templates(P):
             [D.tparam('T', [T(c)])],
             [D.tparam('POSE', [T(c), T(P['tpl'][0], t=[T(P['ns'][0] + '::' + P['cls'][1])])]), D.tparam('U')],
             [D.tparam('T', [T('double'), T('3')]), D.tparam('U', [T('%s::%s::%s' % (P['ns'][2], P['ns'][3], c))])],
+            # templated entry first, plain entries after it, and the other way round
+            [D.tparam('T', [T(P['tpl'][0], t=[T(P['ns'][0] + '::' + P['cls'][1])]), T(c), T('std::size_t')]),
+             D.tparam('U', [T(c), T(P['tpl'][1], t=[T('int'), T(c)]), T('double')])],
             # same short name from two namespaces, and the same type twice: a list is kept as written
             [D.tparam('T', [T(P['ns'][0] + '::Model'), T(P['ns'][1] + '::Model'),
                             T(P['tpl'][0], t=[T(P['ns'][0] + '::Model')]), T(P['tpl'][0], t=[T(P['ns'][1] + '::Model')]), T(P['ns'][0] + '::Model')])]]
@@ -226,6 +231,10 @@ def decl_cases(P, thorough):
                            # several callables without parameters, at different scopes
                            D.ns(P['ns'][0], [D.func(single(T('void')), 'noargs', []), D.cls(P['cls'][1], [D.method(single(I_), 'm0', []), D.static(single(I_), 's0', [])])]),
                            D.func(single(T('void')), 'last', [])]
+    # a forward declaration next to a class definition of the same (unqualified) name, in one block
+    yield 'fwd-and-class', [D.fwd('Values'), D.cls('Values', [D.ctor('Values')]),
+                            D.ns(P['ns'][0], [D.fwd('gtsam::Shape', 1), D.cls('Shape', [D.ctor('Shape')], v=1), D.fwd('Later', 0, 'Shape'),
+                                              D.cls('Later', [], b=T('Shape'))])]
     # default texts: each text in each argument position of a 3-argument function, and on variables/properties
     for di, dflt in enumerate(DEFAULTS):
         decls = []
